@@ -16,6 +16,12 @@ import sys
 import common
 import py2coq
 
+XP = 'exactly_lib/impls/instructions/multi_phase/utils/instruction_from_parts_for_executing_program.py'
+AC = 'exactly_lib/type_val_deps/types/program/sdv/accumulated_components.py'
+RO = 'exactly_lib/type_val_deps/types/path/rel_opts_configuration.py'
+PSE = 'exactly_lib/execution/impl/phase_step_executors.py'
+OPE = 'exactly_lib/definitions/os_proc_env.py'
+SY = 'exactly_lib/symbol/symbol_syntax.py'
 FR = 'exactly_lib/execution/full_execution/result.py'
 EV = 'exactly_lib/processing/exit_values.py'
 SP = 'exactly_lib/test_suite/reporters/simple_progress_reporter.py'
@@ -110,16 +116,75 @@ CASES = [
     ('Reporters', 'm1-xfail-not-success', 'fail', SP, [('                    FullExeResultStatus.SKIPPED,\n                    FullExeResultStatus.XFAIL\n', '                    FullExeResultStatus.SKIPPED,\n')]),
     ('Reporters', 'm2-junit-hard-error-is-failure', 'fail', JU, [('FAIL_STATUSES = {FullExeResultStatus.FAIL,', 'FAIL_STATUSES = {FullExeResultStatus.FAIL, FullExeResultStatus.HARD_ERROR,')]),
     ('Reporters', 'm3-junit-validation-not-error', 'fail', JU, [('                  FullExeResultStatus.VALIDATION_ERROR,\n', '')]),
+    ('ProgVerdict', 'unchanged', 'pass', XP, []),
+    ('ProgVerdict', 'h1-rename-parameter', 'pass', XP, [
+        ('def result_to_sh(result: ExecutionResultAndStderr) -> sh.SuccessOrHardError:\n    if result.exit_code != 0:\n        return sh.new_sh_hard_error(\n            top_lvl_error_msg_rendering.non_zero_exit_code_msg(result.program,\n                                                               result.exit_code,\n                                                               result.stderr_contents)',
+         'def result_to_sh(res: ExecutionResultAndStderr) -> sh.SuccessOrHardError:\n    if res.exit_code != 0:\n        return sh.new_sh_hard_error(\n            top_lvl_error_msg_rendering.non_zero_exit_code_msg(res.program,\n                                                               res.exit_code,\n                                                               res.stderr_contents)')]),
+    ('ProgVerdict', 'm1-nonzero-exit-is-success', 'fail', XP, [('def result_to_sh(result: ExecutionResultAndStderr) -> sh.SuccessOrHardError:\n    if result.exit_code != 0:',
+                                                              'def result_to_sh(result: ExecutionResultAndStderr) -> sh.SuccessOrHardError:\n    if result.exit_code == 1:')]),
+    ('ProgVerdict', 'm2-assert-hard-error-instead-of-fail', 'fail', XP, [('        return pfh.new_pfh_fail(', '        return pfh.new_pfh_hard_error(')]),
+    ('ProgVerdict', 'm3-ignore-exit-code-not-unconditional', 'fail', 'exactly_lib/impls/instructions/multi_phase/utils/instruction_part_utils.py',
+     [('    def translate_for_assertion(self, error_message) -> pfh.PassOrFailOrHardError:\n        return pfh.new_pfh_pass()',
+       '    def translate_for_assertion(self, error_message) -> pfh.PassOrFailOrHardError:\n        return pfh.new_pfh_fail(error_message)')]),
+    ('ProgVerdict', 'm4-sh-is_success-inverted', 'fail', 'exactly_lib/test_case/result/sh.py', [('        return self[0] is None', '        return self[0] is not None')]),
+    ('ProgVerdict', 'seeded-C10-m1', 'fail', 'seeded/C10-m1/patch.diff', []),
+    ('Accumulate', 'unchanged', 'pass', AC, []),
+    # the defect of this seeded change is in program_symbol_sdv.py (not translated); accumulated_components.py only gains a property
+    ('Accumulate', 'seeded-C10-m2 (defect elsewhere)', 'pass', 'seeded/C10-m2/patch.diff', []),
+    ('Accumulate', 'h1-rename-parameter', 'pass', AC, [('additional', 'extra')]),
+    ('Accumulate', 'm1-stdin-order-swapped', 'fail', AC, [('tuple(self.stdin) + tuple(additional.stdin)', 'tuple(additional.stdin) + tuple(self.stdin)')]),
+    ('Accumulate', 'm2-arguments-order-swapped', 'fail', 'exactly_lib/type_val_deps/types/program/sdv/arguments.py',
+     [('list_sdvs.concat([self._arguments, arguments_sdv.arguments_list])', 'list_sdvs.concat([arguments_sdv.arguments_list, self._arguments])')]),
+    ('Accumulate', 'm3-transformations-not-accumulated', 'fail', AC, [('tuple(self.transformations) + tuple(additional.transformations))', 'tuple(self.transformations))')]),
+    ('Relativity', 'unchanged', 'pass', RO, []),
+    ('Relativity', 'h1-reorder-set', 'pass', RO, [('PathRelativityVariants({RelOptionType.REL_ACT,\n                                                                RelOptionType.REL_TMP,',
+                                                    'PathRelativityVariants({RelOptionType.REL_TMP,\n                                                                RelOptionType.REL_ACT,')]),
+    ('Relativity', 'm1-absolute-always-accepted', 'fail', 'exactly_lib/tcfs/relativity_validation.py', [('        return accepted_relativities.absolute', '        return True')]),
+    ('Relativity', 'm2-creation-accepts-result-dir', 'fail', RO, [('PathRelativityVariants({RelOptionType.REL_ACT,\n                                                                RelOptionType.REL_TMP,',
+                                                                   'PathRelativityVariants({RelOptionType.REL_ACT, RelOptionType.REL_RESULT,\n                                                                RelOptionType.REL_TMP,')]),
+    ('Relativity', 'm3-creation-accepts-absolute', 'fail', RO, [('                                                                RelOptionType.REL_CWD},\n                                                               False)',
+                                                                 '                                                                RelOptionType.REL_CWD},\n                                                               True)')]),
+    ('Relativity', 'm4-creation-default-act', 'fail', RO, [('RelOptionsConfiguration(RELATIVITY_VARIANTS_FOR_FILE_CREATION,\n                                                        RelOptionType.REL_CWD)',
+                                                            'RelOptionsConfiguration(RELATIVITY_VARIANTS_FOR_FILE_CREATION,\n                                                        RelOptionType.REL_ACT)')]),
+    ('Relativity', 'm5-enum-member-renumbered', 'fail', 'exactly_lib/tcfs/path_relativity.py', [('    REL_ACT = 3\n    REL_TMP = 4\n    REL_RESULT = 5\n\n\nclass RelSdsOptionType', '    REL_ACT = 4\n    REL_TMP = 3\n    REL_RESULT = 5\n\n\nclass RelSdsOptionType')]),
+    ('ExecSteps', 'unchanged', 'pass', PSE, []),
+    ('ExecSteps', 'h1-conditional-expression-to-if', 'pass', PSE, [
+        ('    return (\n        None\n        if res.is_success\n        else PartialInstructionControlledFailureInfo(\n            PartialControlledFailureEnum.HARD_ERROR,\n            res.failure_message)\n    )',
+         '    if res.is_success:\n        return None\n    return PartialInstructionControlledFailureInfo(PartialControlledFailureEnum.HARD_ERROR, res.failure_message)')]),
+    ('ExecSteps', 'm1-validation-error-becomes-hard-error', 'fail', PSE, [('            PartialControlledFailureEnum.VALIDATION_ERROR,', '            PartialControlledFailureEnum.HARD_ERROR,')]),
+    ('ExecSteps', 'm2-pass-test-inverted', 'fail', PSE, [('if res.status is pfh.PassOrFailOrHardErrorEnum.PASS:', 'if res.status is not pfh.PassOrFailOrHardErrorEnum.PASS:')]),
+    ('ExecSteps', 'm3-enum-value-changed', 'fail', 'exactly_lib/execution/impl/single_instruction_executor.py', [('    FAIL = 2\n    HARD_ERROR = 99', '    FAIL = 3\n    HARD_ERROR = 99')]),
+    ('ExecSteps', 'm4-svh-validation-test', 'fail', 'exactly_lib/test_case/result/svh.py', [('        return self[0] is False', '        return self[0] is True')]),
+    ('ExecSteps', 'm5-sh-hard-error-ignored', 'fail', PSE, [('        None\n        if res.is_success\n', '        None\n        if res.is_success or res.is_hard_error\n')]),
+    ('ExecSteps', 'seeded-C01-m4 (pfh hard error becomes FAIL)', 'fail', 'seeded/C01-m4/patch.diff', []),
+    ('ExecSteps', 'seeded-C02-m6 (same function)', 'fail', 'seeded/C02-m6/patch.diff', []),
+    ('Reporters', 'm4-suite-failed-tests-exit-code', 'fail', 'exactly_lib/test_suite/exit_values.py', [("ExitValue(4, 'ERROR'", "ExitValue(1, 'ERROR'")]),
+    ('Reporters', 'm5-invalid-suite-identifier', 'fail', 'exactly_lib/test_suite/exit_values.py', [("ExitValue(3, 'INVALID_SUITE'", "ExitValue(3, 'INVALID'")]),
+    ('Timeout', 'unchanged', 'pass', OPE, []),
+    ('Timeout', 'm1-no-default-timeout', 'fail', OPE, [('TIMEOUT__DEFAULT = 60', 'TIMEOUT__DEFAULT = None')]),
+    ('Timeout', 'm2-other-default-than-tabulated', 'fail', OPE, [('TIMEOUT__DEFAULT = 60', 'TIMEOUT__DEFAULT = 600')]),
+    ('SymbolSyntax', 'unchanged', 'pass', SY, []),
+    ('SymbolSyntax', 'm1-other-begin-delimiter', 'fail', SY, [("SYMBOL_REFERENCE_BEGIN = '@['", "SYMBOL_REFERENCE_BEGIN = '${'")]),
     # changes how the set is USED, not the set: outside what this tie covers (the behavioural checks of C16 catch it)
     ('Reporters', 'seeded-C16-m1 (use site only)', 'pass', 'seeded/C16-m1/patch.diff', []),
 ]
 
-DEPS = {  # compiled files of /verif/coq the proof needs (copied, not rebuilt)
-    'LineNums': ['Lib/PyVal', 'Model/LineNums', 'Proofs/PyValLemmas'],
-    'Interval': ['Lib/PyVal', 'Model/Interval', 'Proofs/PyValLemmas'],
-    'Outcome': ['Lib/PyVal', 'Model/Outcome', 'Proofs/SrcTieOutcomeEnc'],
-    'Reporters': ['Lib/PyVal', 'Model/Outcome', 'Model/Suite', 'Proofs/SrcTieOutcomeEnc'],
-}
+def deps(target):
+    """the compiled files of /verif/coq the proof file needs (copied, not rebuilt): its dependency cone without the
+    generated Src_ file"""
+    seen, todo = [], ['Proofs/SrcTie%s.v' % target]
+    while todo:
+        f = todo.pop()
+        if f in seen:
+            continue
+        seen.append(f)
+        txt = re.sub(r'\(\*.*?\*\)', '', open(os.path.join(common.COQ, f)).read(), flags=re.S)
+        for m in re.finditer(r'Require\s+(?:Import\s+|Export\s+)?(.*?)\.(?=\s|$)', txt, re.S):
+            for tok in m.group(1).split():
+                cand = tok.replace('Exactly.', '').replace('.', '/') + '.v'
+                if os.path.exists(os.path.join(common.COQ, cand)):
+                    todo.append(cand)
+    return [f[:-2] for f in seen[1:] if f != 'Gen/Src_%s.v' % target]
 
 
 def coqc(scratch, rel):
@@ -143,9 +208,9 @@ def run_case(target, name, expect, rel, edits, root):
             assert old in txt, (name, old)
             txt = txt.replace(old, new)
         open(path, 'w').write(txt)
-    for d in ('Lib', 'Model', 'Proofs', 'Gen'):
+    for d in ('Lib', 'Model', 'Spec', 'Proofs', 'Gen'):
         os.makedirs(os.path.join(scratch, d))
-    for dep in DEPS[target]:
+    for dep in deps(target):
         shutil.copy(os.path.join(common.COQ, dep + '.vo'), os.path.join(scratch, dep + '.vo'))
     try:
         py2coq.gen(target, src=src, out_dir=os.path.join(scratch, 'Gen'))
